@@ -3010,8 +3010,9 @@ impl<'p> Evaluator<'_, 'p> {
         let sum = sum + item_value;
         let index = index + 1;
         if index == array.len() {
-            self.value_stack
-                .push(ValueData::Number(sum / (array.len() as f64)));
+            let avg = sum / (array.len() as f64);
+            self.check_number_value(avg, None)?;
+            self.value_stack.push(ValueData::Number(avg));
         } else {
             let item_thunk = array[index].view();
             self.state_stack
